@@ -157,13 +157,18 @@ def run(ctx):
     extra = [("empty", make_file(tmp, 0, "empty.bin")), ("truncated-header", make_file(tmp, 3, "th.bin", b"\x08\x64\xc0")),
              ("truncated-body", make_file(tmp, 3, "tb.bin", defs.mk_packet(bytes(20), apid=7)[:12])),
              ("garbage", make_file(tmp, 0, "g.bin", bytes(range(5))))]
+    hung = set()
     for label, path in extra:
         for args in (["describe-packets", path], ["parse", path, xt], ["parse", path, xt, "--packet=0"]):
-            rc, out, to = run_cli(args, timeout=40)
+            if (label, args[0]) in hung:
+                continue            # this command already failed to terminate on this file: one report is enough
+            rc, out, to = run_cli(args, timeout=180)
+            if to:
+                hung.add((label, args[0]))
             ctx.traces += 1
             ctx.count((label, tuple(args[:1])))
             if to:
-                ctx.violation("C19/hang", f"`spp {' '.join(args[:1])}` did not terminate within 40 s on a file that is {label}", {"file": label, "args": args[:1]})
+                ctx.violation("C19/hang", f"`spp {' '.join(args[:1])}` did not terminate within 180 s on a file that is {label}", {"file": label, "args": args[:1]})
             elif rc != 0 or "Traceback" in out:
                 ctx.violation("C19/crash", f"`spp {args[0]}` on a {label} file: exit {rc}: {out[-300:]!r}", {"file": label, "args": args[:1]})
     # ---- the repository's own invocation: 7200 JPSS packets -> first five, ellipsis, last five
